@@ -4,18 +4,35 @@ from hutil import S, unS, err
 
 MODEL = "C08"
 PROP_FILES = ["Props/C08.v"]
-RULE = ("exhaustive: all strings up to length 6 (quick) / 7 (thorough) over {a, space, tab, ', \", backslash, -}; seeded random "
-        "token lists (0-4 tokens of 0-5 chars over letters, all 29 whitespace code points, quotes, backslash, '-', '=', non-ASCII) "
-        "quoted per token with ' or \" (or left bare when possible) and joined by random whitespace runs - an expressible stream "
-        "(round trip required) and an inexpressible one (model = implementation only); argv lists with '--' at every position; "
-        "str.isspace() table; non-trivial = string with a quote or backslash, or >= 2 tokens; distinct by string / token list")
-TRUSTED = ["parser/resolver indistinguishability of StringArgs and ArgvArgs is checked by running both through one parser (testing)"]
+RULE = ("exhaustive: all strings up to length 6 (quick) / 7 (thorough) over {a, space, tab, ', \", backslash, -} and up to length 5 "
+        "over {n, #, space, ', \", backslash} (a letter an escape translation would touch, a comment character); seeded random "
+        "token lists (0-4 tokens of 0-5 chars over all printable ASCII, \\n \\t \\r, all 29 whitespace code points, combining / "
+        "astral / other non-ASCII characters, quotes and backslash weighted up; a third of the lists drawn from a pool of command "
+        "names, option spellings, '--' and quoted values) quoted per token with ' or \" (or left bare when possible) and joined by "
+        "random whitespace runs - an expressible stream (round trip required; the argv form is the generated list, NOT the "
+        "tokeniser's output, and both forms go through two parsers (strict + lenient, a format whose option names occur in the "
+        "lists) and the DefaultResolver of a 2-level application) and an inexpressible one (model = implementation only); long "
+        "inputs of 50..5000 characters built from repeated units ('\", \\\\, \"a', ' \", spaces: deep quote nesting); argv lists "
+        "with '--' at every position; the str.isspace() table computed by the model; non-trivial = string with a quote or "
+        "backslash, or >= 2 tokens; distinct by string / token list")
+TRUSTED = ["parser/resolver indistinguishability of StringArgs and ArgvArgs is checked by running both forms through the same parsers "
+           "and the same resolver (testing); the Coq statement string_and_argv_indistinguishable holds by construction of the model "
+           "(parse/resolve/run take the token list)"]
 ASSUMPTIONS = []
 
 ALPHA = ["a", " ", "\t", "'", '"', "\\", "-"]
+ALPHA2 = ["n", "#", " ", "'", '"', "\\"]
 SPACES = [9, 10, 11, 12, 13, 28, 29, 30, 31, 32, 133, 160, 5760, 8192, 8193, 8194, 8195, 8196, 8197, 8198, 8199, 8200, 8201, 8202,
           8232, 8233, 8239, 8287, 12288]
-TOKCHARS = list("abcxyz") + ["'", '"', "\\", "-", "=", "é", "λ"]
+PRINTABLE = [chr(x) for x in range(33, 127)]
+# combining acute / diaeresis, e-acute, lambda, CJK, an astral letter, an emoji, a non-ASCII digit, zero-width space (not isspace)
+FOREIGN = ["\u0301", "\u0308", "\u00e9", "\u03bb", "\u4e2d", "\U0001d4d0", "\U0001f600", "\u0663", "\u200b"]
+SPECIAL = ["'", '"', "\\", "-", "=", "n", "t", "r", "#", "0", "f", "v", "$", "`"]
+CONTROL = ["\n", "\t", "\r"]
+# tokens that mean something to the parser / resolver of _parse_resolve below
+WORDS = ["server", "srv", "add", "list", "--", "-", "-v", "--verbose", "-f", "-fx", "-f=x", "--foo", "--foo=a b", "--foo=", "--bar",
+         "-vf", "a b", "it's", 'say "hi"', "", "x", "--no", "-x", "\\n", "#c", "-#"]
+UNITS = ["'\"", "\\\\", "\"a'", "' \"", "a ", "\\'", "'a\\\"", "\t", "# "]
 
 
 def escape(t):
@@ -54,31 +71,89 @@ def build(toks, qs, seps, lead, trail):
     return s + trail
 
 
+def _rand_token(rng):
+    """0-5 characters; quotes, backslash and the letters an escape translation would touch are weighted up"""
+    ln = rng.randint(0, 5)
+    sp = [chr(c) for c in rng.sample(SPACES, 2)]
+    out = []
+    for _ in range(ln):
+        r = rng.random()
+        if r < 0.40:
+            out.append(rng.choice(SPECIAL))
+        elif r < 0.75:
+            out.append(rng.choice(PRINTABLE))
+        elif r < 0.85:
+            out.append(rng.choice(FOREIGN))
+        elif r < 0.90:
+            out.append(rng.choice(CONTROL))
+        else:
+            out.append(rng.choice(sp))
+    return "".join(out)
+
+
+def _long_input(rng):
+    """50..5000 characters from repeated units: long runs of unmatched alternating quotes nest the scanner deeply"""
+    n = rng.choice([50, 200, 800, 1200, 2500, 5000]) if rng.random() < 0.5 else rng.randint(50, 5000)
+    r = rng.random()
+    if r < 0.4:
+        u = rng.choice(UNITS)
+        s = u * (n // len(u) + 1)
+    elif r < 0.7:
+        us = rng.sample(UNITS, 2)
+        s = (us[0] * rng.randint(1, 40) + us[1] * rng.randint(1, 40)) * (n // 2 + 1)
+    else:
+        parts = []
+        total = 0
+        while total < n:
+            u = rng.choice(UNITS) * rng.randint(1, 60)
+            parts.append(u)
+            total += len(u)
+        s = "".join(parts)
+    return s[:n]
+
+
 def gen(rng, tier, info):
     depth = {"quick": 6, "thorough": 7, "search": 5}[tier]
     cases = []
     for k in range(depth + 1):
         for t in itertools.product(ALPHA, repeat=k):
             cases.append({"k": 0, "s": "".join(t)})
+    for k in range(1, 6):
+        for t in itertools.product(ALPHA2, repeat=k):
+            if "n" in t or "#" in t:
+                cases.append({"k": 0, "s": "".join(t)})
     n_ex = len(cases)
     nr = {"quick": 20000, "thorough": 200000, "search": 10000}[tier]
-    n_expr = 0
+    n_expr = n_words = 0
     for _ in range(nr):
         nt = rng.randint(0, 4)
-        toks = []
-        for _ in range(nt):
-            ln = rng.randint(0, 5)
-            pool = TOKCHARS + [chr(c) for c in rng.sample(SPACES, 2)]
-            toks.append("".join(rng.choice(pool) for _ in range(ln)))
+        words = rng.random() < 0.33
+        n_words += words
+        toks = [rng.choice(WORDS) if (words and rng.random() < 0.85) else _rand_token(rng) for _ in range(nt)]
         qs = []
         for t in toks:
-            qs.append(0 if (bare_ok(t) and rng.random() < 0.3) else rng.choice([1, 2]))
+            qs.append(0 if (bare_ok(t) and rng.random() < (0.6 if words else 0.3)) else rng.choice([1, 2]))
         seps = ["".join(chr(rng.choice(SPACES)) for _ in range(rng.randint(1, 3))) for _ in range(max(0, nt - 1))]
         lead = "".join(chr(rng.choice(SPACES)) for _ in range(rng.randint(0, 2)))
         trail = "".join(chr(rng.choice(SPACES)) for _ in range(rng.randint(0, 2)))
         ex = all(expressible(t) for t in toks)
         n_expr += ex
         cases.append({"k": 0, "s": build(toks, qs, seps, lead, trail), "toks": toks if ex else None})
+    # unquoted text: words over printable non-quote characters split at runs of any whitespace (no quoting involved)
+    nu = nr // 10
+    plain = [ch for ch in PRINTABLE + FOREIGN if ch not in "'\"\\"]
+    for _ in range(nu):
+        nt = rng.randint(2, 5)
+        toks = ["".join(rng.choice(plain) for _ in range(rng.randint(1, 4))) for _ in range(nt)]
+        seps = ["".join(chr(rng.choice(SPACES)) for _ in range(rng.randint(1, 3))) for _ in range(nt - 1)]
+        cases.append({"k": 0, "s": build(toks, [0] * nt, seps, "", chr(rng.choice(SPACES)) if rng.random() < 0.5 else ""), "toks": toks})
+    # long inputs
+    nl = {"quick": 150, "thorough": 1500, "search": 60}[tier]
+    for u in UNITS[:4]:
+        for n in (1200, 5000):
+            cases.append({"k": 0, "s": (u * n)[:n]})
+    for _ in range(nl):
+        cases.append({"k": 0, "s": _long_input(rng)})
     # argv lists: "--" at every position, probes
     pool = ["--", "-v", "--foo", "a", "", "-", "--=", "x y"]
     for k in range(0, 5):
@@ -92,6 +167,7 @@ def gen(rng, tier, info):
         cases.append({"k": 2, "lo": lo, "hi": min(hi, lo + 0x4000)})
     info["exhaustive"] = True
     info["distribution"] = {"exhaustive_strings": n_ex, "max_len": depth, "random_token_lists": nr, "of_which_expressible": n_expr,
+                            "of_which_from_the_word_pool": n_words, "unquoted_word_lists": nu, "long_inputs": nl + 8,
                             "argv_lists": sum(6 ** k for k in range(5)), "isspace_range": hi}
     return cases
 
@@ -107,31 +183,76 @@ def wire(c):
 
 
 def describe(c):
+    if c["k"] == 0 and len(c["s"]) > 300:
+        return "string of %d characters: %r ... %r" % (len(c["s"]), c["s"][:60], c["s"][-20:])
     return repr(c)
 
 
-FMT = None
+_ENV = None
 
 
-def _parse_both(tokens_a, raw_a, raw_b):
-    """parse through one strict and one lenient parser against a permissive format; return whether both forms agree"""
-    global FMT
-    from clikit.api.args.format import ArgsFormat, Argument, Option
-    from clikit.args import DefaultArgsParser
-    if FMT is None:
-        FMT = ArgsFormat([Argument("first"), Argument("rest", Argument.MULTI_VALUED), Option("foo", "f", Option.OPTIONAL_VALUE),
+def _env():
+    """a permissive format for two parsers and a 2-level application for the resolver; the option and command names occur in WORDS"""
+    global _ENV
+    if _ENV is None:
+        from clikit import ConsoleApplication
+        from clikit.api.args.format import ArgsFormat, Argument, Option
+        from clikit.api.config.application_config import ApplicationConfig
+        from clikit.resolver.default_resolver import DefaultResolver
+        fmt = ArgsFormat([Argument("first"), Argument("rest", Argument.MULTI_VALUED), Option("foo", "f", Option.OPTIONAL_VALUE),
                           Option("verbose", "v")])
-    res = []
-    for raw in (raw_a, raw_b):
-        r = []
-        for lenient in (False, True):
-            try:
-                a = DefaultArgsParser().parse(raw, FMT, lenient)
-                r.append([a.arguments(), a.options()])
-            except Exception as e:
-                r.append(type(e).__name__)
-        res.append(r)
-    return res[0] == res[1]
+        config = ApplicationConfig("app", "1.0")
+        config.set_command_resolver(DefaultResolver())
+        config.set_catch_exceptions(False)
+        config.set_terminate_after_run(False)
+        config.add_option("verbose", "v")
+        server = config.create_command("server")
+        server.add_alias("srv")
+        server.add_option("foo", "f", Option.OPTIONAL_VALUE)
+        add = server.create_sub_command("add")
+        add.add_argument("name", Argument.OPTIONAL)
+        add.add_argument("rest", Argument.MULTI_VALUED)
+        add.add_option("bar", None, Option.REQUIRED_VALUE)
+        lst = config.create_command("list")
+        lst.default()
+        lst.add_argument("what", Argument.OPTIONAL)
+        _ENV = (fmt, ConsoleApplication(config))
+    return _ENV
+
+
+def _parse_resolve(raw):
+    """what two parsers and the resolver make of a raw-arguments object"""
+    from clikit.args import DefaultArgsParser
+    fmt, app = _env()
+    r = []
+    for lenient in (False, True):
+        try:
+            a = DefaultArgsParser().parse(raw, fmt, lenient)
+            r.append([a.arguments(), a.options()])
+        except Exception as e:
+            r.append(type(e).__name__)
+    try:
+        rc = app.resolve_command(raw)
+        r.append([rc.command.full_name, rc.args.arguments(), rc.args.options()])
+    except Exception as e:
+        r.append(type(e).__name__)
+    return r
+
+
+PROBES = ["--", "-v", "a", "", "--foo", "server", "x"]
+
+
+def _same(a, b):
+    """everything the library reads of a raw-arguments object, for the string form a and the argv form b"""
+    if list(a.tokens) != list(b.tokens) or list(a.option_tokens) != list(b.option_tokens):
+        return 0
+    if not all(a.has_token(p) == b.has_token(p) and a.has_option_token(p) == b.has_option_token(p) for p in PROBES):
+        return 0
+    ra, rb = _parse_resolve(a), _parse_resolve(b)
+    if ra != rb:
+        return 0
+    # 2 = the comparison was not trivial: a parser or the resolver accepted the line
+    return 2 if any(isinstance(x, list) for x in ra) else 1
 
 
 def run_impl(c):
@@ -142,11 +263,19 @@ def run_impl(c):
         except Exception as e:
             return err(e)
         out = [0, [S(t) for t in a.tokens], [S(t) for t in a.option_tokens]]
-        b = ArgvArgs(["script"] + list(a.tokens))
-        same = (b.tokens == a.tokens and b.option_tokens == a.option_tokens and
-                all(a.has_token(p) == b.has_token(p) and a.has_option_token(p) == b.has_option_token(p) for p in ["--", "-v", "a", ""]))
-        same = same and _parse_both(a.tokens, a, b)
-        return out + [1 if same else 0]
+        # the argv form, built WITHOUT the tokeniser wherever the case says what the string spells: the generated token list
+        # (expressible stream), str.split() for text free of quotes and backslashes; else the tokens just read (whose
+        # agreement with the model's tokens is the first part of this observation)
+        s = c["s"]
+        if c.get("toks") is not None:
+            argv, indep = list(c["toks"]), 1
+        elif not any(ch in "'\"\\" for ch in s):
+            argv, indep = s.split(), 1
+        else:
+            argv, indep = list(a.tokens), 0
+        b = ArgvArgs(["script"] + argv)
+        same = _same(a, b)
+        return out + [same, indep]
     if c["k"] == 1:
         argv = ["script"] + list(c["toks"])
         snapshot = list(argv)
@@ -168,24 +297,18 @@ def canon_impl(c, o):
     return o
 
 
-def canon_model(c, o):
-    if c["k"] == 2:
-        return [0, [x for x in SPACES if c["lo"] <= x < c["hi"]]]
-    return o
-
-
 def oracle(c, o):
     if o[0] != 0:
         return "tokenize-raises:%d" % o[1]
     if c["k"] == 0:
-        if not o[3]:
-            return "string-and-argv-forms-differ"
         toks = [unS(t) for t in o[1]]
         if c.get("toks") is not None and toks != c["toks"]:
             return "quoting-roundtrip"
         s = c["s"]
         if not any(ch in "'\"\\" for ch in s) and toks != s.split():
             return "unquoted-split"
+        if not o[3]:
+            return "string-and-argv-forms-differ"
         exp = list(itertools.takewhile(lambda t: t != "--", toks))
         if [unS(t) for t in o[2]] != exp:
             return "option-tokens"
@@ -199,6 +322,9 @@ def oracle(c, o):
         for p, (ht, ho) in zip(c["probes"], o[3]):
             if bool(ht) != (p in toks) or bool(ho) != (p in exp):
                 return "has-token"
+    if c["k"] == 2:
+        if o[1] != [x for x in SPACES if c["lo"] <= x < c["hi"]]:
+            return "isspace-table"
     return None
 
 
@@ -215,5 +341,10 @@ def nontrivial_key(c, o):
 def shrink(c):
     if c["k"] == 0:
         s = c["s"]
-        for i in range(len(s)):
+        if len(s) > 40:
+            # long inputs: halve first
+            yield {"k": 0, "s": s[:len(s) // 2]}
+            yield {"k": 0, "s": s[len(s) // 2:]}
+            yield {"k": 0, "s": s[:len(s) * 9 // 10]}
+        for i in range(min(len(s), 200)):
             yield {"k": 0, "s": s[:i] + s[i + 1:]}
